@@ -65,4 +65,9 @@ func (t *timer) Reset(d time.Duration) bool {
 	return t.t.Reset(d)
 }
 
-var _ clock.Clock = (*SkewClock)(nil)
+// NewTicker is not supported (no component under test uses it with this clock).
+func (c *SkewClock) NewTicker(d time.Duration) clock.Ticker {
+	panic("simclock: NewTicker not supported")
+}
+
+var _ clock.WithTicker = (*SkewClock)(nil)
